@@ -891,7 +891,7 @@ func (x *Exec) Verify(f *ssa.Function, c *FuncContract) {
 				x.errors = append(x.errors, fmt.Sprintf("%s: use: %v", u.Where, err))
 				continue
 			}
-			st.assume(t)
+			st.assumeUse(t)
 		}
 	}
 	// named locals declared inside loop bodies resolve to an unconstrained value until
@@ -1156,7 +1156,7 @@ func (x *Exec) loopHead(st *State, fr *Frame, li *loopInfo) bool {
 				x.errors = append(x.errors, fmt.Sprintf("%s: use: %v", u.Where, err))
 				continue
 			}
-			st.assume(t)
+			st.assumeUse(t)
 		}
 		for _, inv := range ls.Invariants {
 			t, err := env.evalBool(inv.Expr)
@@ -1321,6 +1321,11 @@ func (x *Exec) checkClauses(st *State, env *Env, cl []Clause, kind, prefix, site
 }
 
 func (x *Exec) havocLoop(st *State, fr *Frame, li *loopInfo) {
+	// the head stands for an arbitrary iteration: earlier iterations may have allocated, so
+	// the watermark moves first and the havoced variables may refer to anything below it
+	newAlloc := Fresh("A", SInt)
+	st.assume(Ge(newAlloc, st.alloc))
+	st.alloc = newAlloc
 	for _, al := range sortedAllocs(li.cells) {
 		c := fr.cells[al]
 		if c == nil {
@@ -1331,9 +1336,6 @@ func (x *Exec) havocLoop(st *State, fr *Frame, li *loopInfo) {
 	for i := range st.iters {
 		st.iters[i].visited = Fresh("visited", st.iters[i].visited.Sort)
 	}
-	newAlloc := Fresh("A", SInt)
-	st.assume(Ge(newAlloc, st.alloc))
-	st.alloc = newAlloc
 	if os.Getenv("TWV_DEBUG_LOOP") != "" {
 		fmt.Fprintf(os.Stderr, "loop %d of %s havoc keys: %v\n", li.index, x.topKey, li.keys)
 	}
@@ -1754,4 +1756,64 @@ func coverFacts(facts []*T, terms []*T) []*T {
 		add(f)
 	}
 	return out
+}
+
+// assumeUse assumes an instantiated axiom. A universal quantifier among the conjuncts of the
+// axiom's antecedent is an existential of the fact ((forall k. S(k)) => Q  is  exists k.
+// (S(k) => Q)); it is replaced by a fresh constant, at which the path's universal facts are
+// then instantiated like at any other index term. Without this the solver has to find the
+// instance itself, which made introduction rules with list-valued children slow and
+// seed-dependent.
+func (st *State) assumeUse(t *T) {
+	if t.Op == "app" && t.Name == "=>" && len(t.Args) == 2 && containsForall(t.Args[0]) {
+		var sks []*T
+		var conj func(a *T) *T
+		conj = func(a *T) *T {
+			if a.Op != "app" {
+				return a
+			}
+			switch a.Name {
+			case "and":
+				args := make([]*T, len(a.Args))
+				for i, c := range a.Args {
+					args[i] = conj(c)
+				}
+				return And(args...)
+			case "forall":
+				n := len(a.Args) - 1
+				m := map[string]*T{}
+				for _, v := range a.Args[:n] {
+					c := Fresh("sk!"+strings.TrimPrefix(v.Name, "b!"), v.Sort)
+					m[v.Name] = c
+					sks = append(sks, c)
+				}
+				return conj(Subst(a.Args[n], m))
+			case "=>":
+				// forall k. (guard => body): keep the guard, continue into the body
+				if len(a.Args) == 2 && !containsForall(a.Args[0]) {
+					return Implies(a.Args[0], conj(a.Args[1]))
+				}
+			}
+			return a
+		}
+		ante := conj(t.Args[0])
+		t = Implies(ante, t.Args[1])
+		for _, c := range sks {
+			st.noteInstForce(c)
+		}
+	}
+	st.assume(t)
+}
+
+func (st *State) noteInstForce(t *T) {
+	k := t.String()
+	for _, o := range st.instTerms {
+		if o.String() == k {
+			return
+		}
+	}
+	if len(st.instTerms) >= 12 {
+		st.instTerms = st.instTerms[1:]
+	}
+	st.instTerms = append(st.instTerms, t)
 }
